@@ -1,2 +1,123 @@
-From AG Require Import Str.
-Example placeholder : 1 = 1. Proof. reflexivity. Qed.
+(** C04 — every query is either fully honoured or rejected with a diagnostic. *)
+From Coq Require Import List ZArith NArith Bool Lia.
+From AG Require Import Str F64 Value Json Expr Ops Pipeline Filter Grammar Grammar_proofs Spelling_proofs.
+From AG Require Generated.
+Import ListNotations.
+Open Scope string_scope.
+Open Scope list_scope.
+
+(** [accepts] is the accepted language: lang.rs transcribed combinator for combinator (every error
+    recovery point collapses to rejection), followed by typecheck.rs and the alias splice.  It is a
+    total function: compilation terminates.  What an accepted query consists of: *)
+Theorem C04_accepted_query_anatomy : forall (s : str) (f : filter) (st : list stage),
+  accepts s = Some (f, st) ->
+  exists q sts,
+    parse_query s = Some q /\ lq_filter q = f /\
+    Forall2 (fun o l => check_lop true o = Some l) (lq_ops q) sts /\
+    st = concat sts /\ forallb stage_ok st = true.
+Proof. exact accepts_anatomy. Qed.
+Print Assumptions C04_accepted_query_anatomy.
+
+(** the whole text was consumed: only whitespace may remain after the last stage (false before fix e08667b) *)
+Theorem C04_whole_input_consumed : forall (s : str) (q : lquery),
+  parse_query s = Some q ->
+  exists r1 r2,
+    parse_search s = POk (lq_filter q) r1 /\
+    (match eat 124%N r1 with Some r' => parse_operators r' | None => POk [] r1 end) = POk (lq_ops q) r2 /\
+    is_nil (trim r2) = true.
+Proof. exact parse_query_whole_input. Qed.
+Print Assumptions C04_whole_input_consumed.
+
+(** no stage is skipped: a stage either parses or aborts the whole parse (the operator parser never
+    backtracks out of a stage — false before fix 6a3cc0b), no pipe is left over, and every operator of
+    an accepted query contributes at least one stage *)
+Theorem C04_no_stage_skipped : forall s : str, p_oper s <> PFail.
+Proof. exact p_oper_never_backtracks. Qed.
+Print Assumptions C04_no_stage_skipped.
+
+Theorem C04_no_pipe_left : forall (s r : str) (ops : list lop),
+  parse_operators s = POk ops r -> head_is 124%N r = false.
+Proof. exact parse_operators_leaves_no_pipe. Qed.
+Print Assumptions C04_no_pipe_left.
+
+Theorem C04_every_operator_in_effect : forall (o : lop) (l : list stage),
+  check_lop true o = Some l -> l <> [].
+Proof. exact check_lop_nonempty. Qed.
+Print Assumptions C04_every_operator_in_effect.
+(** (that every stage of the resulting list is then in effect, in order, is C03) *)
+
+(** *** static errors: ONE bad operator or ONE statically wrong stage anywhere rejects the whole query *)
+Theorem C04_bad_operator_rejects : forall (s : str) (q : lquery) (o : lop),
+  parse_query s = Some q -> In o (lq_ops q) -> check_lop true o = None -> accepts s = None.
+Proof. exact bad_op_rejects. Qed.
+Print Assumptions C04_bad_operator_rejects.
+
+Theorem C04_bad_stage_rejects : forall (s : str) (q : lquery) (o : lop) (l : list stage) (x : stage),
+  parse_query s = Some q -> In o (lq_ops q) -> check_lop true o = Some l -> In x l ->
+  stage_ok x = false -> accepts s = None.
+Proof. exact bad_stage_rejects. Qed.
+Print Assumptions C04_bad_stage_rejects.
+
+(** ... instantiated for the documented static errors *)
+Theorem C04_static_limit : forall c : option f64,
+  typecheck_limit c = None -> check_lop true (LInline (LLimit c)) = None.
+Proof. exact bad_limit_rejected. Qed.
+Print Assumptions C04_static_limit.
+(** (zero, fractional, NaN and infinite counts have typecheck_limit = None: the C10_static theorems) *)
+
+Theorem C04_static_where_missing : check_lop true (LInline (LWhere None)) = None.
+Proof. exact where_without_condition_rejected. Qed.
+Theorem C04_static_where_constant : forall v : value,
+  (forall b, v <> VBool b) -> stage_ok (SWhere (EVal v)) = false.
+Proof. exact where_constant_non_boolean_rejected. Qed.
+Theorem C04_static_unknown_function : forall name args,
+  is_known_func name = false -> stage_ok (SWhere (ECall name args)) = false.
+Proof. exact unknown_function_rejected_in_where. Qed.
+Theorem C04_static_timeslice_duration : forall e n, check_lop true (LInline (LTimeslice e None n)) = None.
+Proof. exact timeslice_without_duration_rejected. Qed.
+Theorem C04_static_count_distinct_arity : forall fns keys n,
+  In (n, LAggDistinctBad) fns -> check_lop true (LMultiAgg fns keys) = None.
+Proof. exact count_distinct_arity_rejected. Qed.
+Theorem C04_static_unknown_alias : forall n,
+  alias_template Generated.alias_table n = None -> check_lop true (LAliasOp n) = None.
+Proof. exact unknown_alias_rejected. Qed.
+Theorem C04_static_field_count : forall pat fields from nodrop noconv,
+  count_stars pat <> length fields -> stage_ok (SParse pat fields from nodrop noconv) = false.
+Proof. exact parse_count_mismatch_rejected. Qed.
+Theorem C04_static_split_separator : forall f o, stage_ok (SSplit [] f o) = false.
+Proof. exact split_empty_separator_rejected. Qed.
+Theorem C04_static_percentile_range : forall (s r : str) (q : f64) (e : expr) (ps : str),
+  p_pct s = POk (LAgg (FPct q e), ps) r ->
+  exists v : Z, (0 < v < 100)%Z /\ q = fdiv (f_of_Z v) (f_of_Z 100).
+Proof. exact pct_in_range. Qed.
+Print Assumptions C04_static_percentile_range.
+
+(** mode words of `fields` are whole words: a field named `only_x` is a field (false before fix a6b1cfe) *)
+Theorem C04_fields_mode_not_a_prefix : forall (c : N) (r : str),
+  is_space c = false ->
+  fields_mode (lit "only" ++ c :: r) = PFail /\ fields_mode (lit "include" ++ c :: r) = PFail /\
+  fields_mode (lit "except" ++ c :: r) = PFail /\ fields_mode (lit "drop" ++ c :: r) = PFail.
+Proof. exact fields_mode_not_a_prefix. Qed.
+Print Assumptions C04_fields_mode_not_a_prefix.
+
+(** concrete instances (closed computations through the whole of [accepts]) *)
+Example C04_accepts_example : accepts (lit "* | json | count by k | sort by _count desc | limit 3") <> None.
+Proof. exact ex_accept. Qed.
+
+Example C04_static_error_examples :
+  map (fun q => accepts (lit q))
+    ["* | limit 0"; "* | limit 0.5"; "* | limit 1.5"; "* | parse ""* *"" as a";
+     "* | parse ""*"" from a as x from b"; "* | json | where 5"; "* | json | where ""x""";
+     "* | json | where nosuchfn(a)"; "* | json | nosuchop"; "* | json | p0(a)"; "* | json | p100(a)";
+     "* | json | sum()"; "* | json | count_distinct()"; "* | json | count_distinct(a, b)"; "* | json | timeslice(t)";
+     "* | json | where"; "* | json | split(a) on """""; "* | json | count |"; "* | json | limit 3 extra";
+     "* | json | count by"; "* | json | fields"; "* | json | a +  as x"; "* | json | (a as x"]
+  = repeat None 23.
+Proof. exact ex_static_errors. Qed.
+
+Example C04_silent_misreadings_gone :
+  option_map snd (accepts (lit "* | json | fields only_x")) = Some [SJson None; SFields true [lit "only_x"]] /\
+  accepts (lit "* | json | parse ""*"" from s asx") = None /\
+  accepts (lit "* | json | fields a b | count") = None /\
+  accepts (lit "* | json | count by x extra") = None.
+Proof. vm_compute. repeat split; reflexivity. Qed.
